@@ -12,6 +12,7 @@ use crate::util::{fnv64, unhex, Buf, Rd, J};
 use std::collections::{BTreeMap, HashMap};
 
 pub const JOB_G_C11: u8 = 70;
+pub const JOB_G_C12_SWEEP: u8 = 71;
 
 // ---------------------------------------------------------------------------------------------
 // C11
@@ -245,6 +246,94 @@ pub fn c11(tier: &str, seed: u64) -> i32 {
 // ---------------------------------------------------------------------------------------------
 // C12
 
+/// C12: from the release-written image, every single entry in turn is overwritten one byte longer, much
+/// longer, with the empty value, and deleted (each from the original image); the result must decode to
+/// the expected contents. This touches every slot (of every size class) the release wrote.
+fn c12_sweep(payload: &[u8], io: &mut WorkerIo) -> Vec<u8> {
+    let mut r = Rd::new(payload);
+    let kt = KtId::from_u8(r.u8());
+    let img = Image::unpack(r.bytes());
+    let n = r.u32();
+    let mut expected: BTreeMap<Vec<u8>, Vec<u8>> = BTreeMap::new();
+    for _ in 0..n {
+        let k = r.vec();
+        let v = r.vec();
+        expected.insert(k, v);
+    }
+    let scratch = Scratch::new("c12");
+    let dir = scratch.fresh("d");
+    let p = Params::buckets(64);
+    let mut out = Buf::new();
+    let mut evals = 0u64;
+    let keys: Vec<Vec<u8>> = expected.keys().cloned().collect();
+    for (ei, k) in keys.iter().enumerate() {
+        io.progress(ei as u64);
+        let old = expected[k].clone();
+        let variants: Vec<Option<Vec<u8>>> = vec![
+            Some(crate::engine_a::value_bytes(7, ei as u64, 1, old.len() + 1)),
+            Some(crate::engine_a::value_bytes(7, ei as u64, 2, old.len() * 2 + 50)),
+            Some(crate::engine_a::value_bytes(7, ei as u64, 3, old.len().saturating_sub(1))),
+            Some(Vec::new()),
+            None,
+        ];
+        for (vi, nv) in variants.iter().enumerate() {
+            evals += 1;
+            clear_dir(&dir);
+            let _ = img.write(&dir, MAP_NAME);
+            let mut model = expected.clone();
+            let what = match nv {
+                Some(v) => format!("overwrite of the {}-byte value of key {} with {} bytes", old.len(), crate::util::show(k), v.len()),
+                None => format!("delete of key {} ({}-byte value)", crate::util::show(k), old.len()),
+            };
+            let res: Result<(), String> = crate::with_kt!(kt, T => {
+                match open_map::<T>(&dir, MAP_NAME, &p) {
+                    Out::Ok((db, mut m)) => {
+                        use abyssiniandb::DbXxx;
+                        let r = match nv {
+                            Some(v) => {
+                                model.insert(k.clone(), v.clone());
+                                match guard(|| DbXxx::put(&mut m, &k[..], v)) { Out::Ok(()) => Ok(()), o => Err(o.failed().unwrap_or_default()) }
+                            }
+                            None => {
+                                let exp = model.remove(k);
+                                match guard(|| DbXxx::delete(&mut m, &k[..])) { Out::Ok(got) if got == exp => Ok(()), Out::Ok(_) => Err("returned a wrong value".to_string()), o => Err(o.failed().unwrap_or_default()) }
+                            }
+                        };
+                        // a second entry is read through the same handle
+                        let other = &keys[(ei + 1) % keys.len()];
+                        let r2 = if r.is_ok() && other != k { match guard(|| DbXxx::get(&mut m, &other[..])) { Out::Ok(g) if g == model.get(other).cloned() => Ok(()), o => Err(format!("afterwards get of another key gives {:?}", o.failed())) } } else { Ok(()) };
+                        let _ = guard_plain(move || { drop(m); drop(db); });
+                        r.and(r2)
+                    }
+                    o => Err(format!("open {}", o.failed().unwrap_or_default())),
+                }
+            });
+            let complaint = match res {
+                Err(e) => Some(e),
+                Ok(()) => match Image::read(&dir, MAP_NAME) {
+                    Ok(after) => {
+                        let d = decoder::decode(&after.htx, &after.key, &after.val);
+                        if let Some((c, m)) = d.errors.first() {
+                            Some(format!("afterwards the files do not decode (clause {}): {m}", c.name()))
+                        } else if d.contents != model {
+                            Some("afterwards the decoded contents differ from the expected ones".to_string())
+                        } else {
+                            None
+                        }
+                    }
+                    Err(e) => Some(format!("files unreadable: {e}")),
+                },
+            };
+            if let Some(c) = complaint {
+                out.u8(1).str(&format!("golden-update:{}", ["grow1", "grow", "shrink1", "empty", "delete"][vi])).str(&format!("{what}: {c}")).u64(evals);
+                return out.0;
+            }
+        }
+    }
+    out.u8(0).u64(evals);
+    out.0
+}
+
 fn read_expected(dir: &std::path::Path) -> Option<BTreeMap<Vec<u8>, Vec<u8>>> {
     let txt = std::fs::read_to_string(dir.join("expected.txt")).ok()?;
     let mut m = BTreeMap::new();
@@ -262,8 +351,9 @@ pub fn c12(tier: &str, seed: u64) -> i32 {
     let thorough = ctx.thorough();
     let root = crate::report::verif_root().join("golden");
     let mut images = 0;
+    let mut sweep_jobs: Vec<(String, Vec<u8>)> = Vec::new();
     for kt in KtId::ALL {
-        for hist in ["inserts", "deletes-overwrites", "large-slots"] {
+        for hist in ["inserts", "deletes-overwrites", "large-slots", "all-classes"] {
             let dir = root.join(kt.name()).join(hist);
             let label = format!("golden/{}/{}", kt.name(), hist);
             let (img, expected) = match (Image::read(&dir, MAP_NAME), read_expected(&dir)) {
@@ -291,7 +381,15 @@ pub fn c12(tier: &str, seed: u64) -> i32 {
             let mut keys = existing.clone();
             keys.extend(newk);
             let absent = crate::alphabet::absent_keys(kt, seed, &expected.keys().cloned().collect::<Vec<_>>());
-            let vals: Vec<u32> = if hist == "large-slots" { vec![30, 1000, 2000] } else { vec![0, 30, 200] };
+            sweep_jobs.push({
+                let mut b = Buf::new();
+                b.u8(JOB_G_C12_SWEEP).u8(kt as u8).bytes(&img.pack()).u32(expected.len() as u32);
+                for (k, v) in &expected {
+                    b.bytes(k).bytes(v);
+                }
+                (label.clone(), b.0)
+            });
+            let vals: Vec<u32> = if hist == "large-slots" || hist == "all-classes" { vec![30, 1000, 2000] } else { vec![0, 30, 200] };
             let mut cfg = ACfg::new("C12", kt, crate::alphabet::reopen_params(Params::buckets(64)), keys.clone(), absent, vals, seed);
             cfg.extras = expected.iter().filter(|(k, _)| !keys.contains(k)).map(|(k, v)| (k.clone(), v.clone())).collect();
             cfg.init_vals = keys.iter().map(|k| expected.get(k).cloned()).collect();
@@ -311,12 +409,38 @@ pub fn c12(tier: &str, seed: u64) -> i32 {
         }
     }
     ctx.run.add("golden_images", images);
+    // every entry of every golden image updated once, from the original image
+    if ctx.run.violations.is_empty() {
+        ctx.pool.reinit(vec![]);
+        let payloads: Vec<Vec<u8>> = sweep_jobs.iter().map(|j| j.1.clone()).collect();
+        let results = ctx.pool.map(&payloads, |i| i);
+        for (i, res) in results.into_iter().enumerate() {
+            match res {
+                JobResult::Done(b) => {
+                    let mut r = Rd::new(&b);
+                    if r.u8() == 0 {
+                        let e = r.u64();
+                        ctx.run.add("golden_entry_updates", e as i64);
+                        ctx.transitions += e;
+                    } else {
+                        let key = r.string();
+                        let msg = r.string();
+                        ctx.run.violation(Violation { prop: "C12".into(), key, message: format!("{}: {msg}", sweep_jobs[i].0), replay: Replay { engine: "C12s".into(), config: sweep_jobs[i].1.clone(), case: vec![], story: vec![sweep_jobs[i].0.clone(), msg] } });
+                    }
+                }
+                JobResult::Crashed { how, progress } => {
+                    let msg = format!("{}: updating entry #{:?} of the release-written image does not return normally: {how}", sweep_jobs[i].0, progress);
+                    ctx.run.violation(Violation { prop: "C12".into(), key: "golden-update:crash".into(), message: msg.clone(), replay: Replay { engine: "C12s".into(), config: sweep_jobs[i].1.clone(), case: vec![], story: vec![msg] } });
+                }
+            }
+        }
+    }
     // N-version check of the oracle itself: a second decoder, written independently in Python from the
     // same documentation (notes/decoder_prototype.py), must accept every golden image as well
     let proto = crate::report::verif_root().join("notes/decoder_prototype.py");
     if proto.exists() {
         for kt in KtId::ALL {
-            for hist in ["inserts", "deletes-overwrites", "large-slots"] {
+            for hist in ["inserts", "deletes-overwrites", "large-slots", "all-classes"] {
                 let dir = root.join(kt.name()).join(hist);
                 match std::process::Command::new("python3").arg(&proto).arg(&dir).output() {
                     Ok(o) if o.status.success() && String::from_utf8_lossy(&o.stdout).contains("OK n=") => ctx.run.add("python_decoder_agreements", 1),
@@ -341,8 +465,24 @@ pub fn c12(tier: &str, seed: u64) -> i32 {
     ctx.finish_model_checking(rule, &["decoded_states"])
 }
 
+pub fn replay_c12s(job: &[u8]) -> i32 {
+    let mut io = WorkerIo::sink();
+    let b = c12_sweep(&job[1..], &mut io);
+    let mut r = Rd::new(&b);
+    if r.u8() == 0 {
+        println!("REPLAY: no violation reproduced ({} updates)", r.u64());
+        0
+    } else {
+        let key = r.string();
+        let msg = r.string();
+        println!("REPLAY VIOLATION [{key}]: {msg}");
+        1
+    }
+}
+
 pub fn worker_job(kind: u8, payload: &[u8], io: &mut WorkerIo) -> Vec<u8> {
     match kind {
+        JOB_G_C12_SWEEP => c12_sweep(payload, io),
         JOB_G_C11 => with_bworker(|bw| c11_run(bw, payload, io)),
         _ => Vec::new(),
     }
